@@ -1940,7 +1940,15 @@ def make_builtins(I):
     def b_round(x, nd=None):
         if not is_sym(x):
             return round(x) if nd is None else round(x, nd)
-        raise PyvcError("round() of a symbolic value not modelled")
+        if nd is not None:
+            raise PyvcError("round(x, ndigits) of a symbolic value not modelled")
+        if z3.is_int(x.e):
+            return x
+        # round half to even (Python 3): floor(x + 1/2), minus one on an exact tie with an odd result
+        e = x.e
+        r = z3.ToInt(e + z3.RealVal("1/2"))
+        tie = e + z3.RealVal("1/2") == z3.ToReal(r)
+        return SV(z3.If(z3.And(tie, r % 2 != 0), r - 1, r), False)
 
     def b_repr(x):
         return "<repr>"
